@@ -18,8 +18,8 @@ ASSUMPTIONS = [
 
 
 def run(ctx, rep):
-    RG.rule_comment_skipper(ctx, rep, "L1")
+    rep.run(RG.rule_comment_skipper, ctx, rep, "L1")
     rep.require_min("L1", 1)
-    RG.rule_layout_transparent(ctx, rep, "L2")
-    RG.rule_single_entry(ctx, rep, "L3", min_sites=3)
-    RG.rule_verbatim_zones(ctx, rep, "L4")
+    rep.run(RG.rule_layout_transparent, ctx, rep, "L2")
+    rep.run(RG.rule_single_entry, ctx, rep, "L3", min_sites=3)
+    rep.run(RG.rule_verbatim_zones, ctx, rep, "L4")
